@@ -15,7 +15,7 @@ FUNCS = ['orc_program_new', 'orc_program_compile_full', 'orc_compiler_compile_pr
 
 
 def scripts(t):
-    quick = ['1,2,8', '9,1', '1,3,4', '1,2,4,2,8', '1,2,3,4,5', '1,2,6,8', '1,5,7', '9,1,3,1', '1,9,4,2', '4,4,2,6']
+    quick = ['1,10,4', '1,10,4,4', '1,2,8', '9,1', '1,3,4', '1,2,4,2,8', '1,2,3,4,5', '1,2,6,8', '1,5,7', '9,1,3,1', '1,9,4,2', '4,4,2,6']
     if t == 'quick':
         return quick
     out = list(quick)
